@@ -344,6 +344,9 @@ def walkRef (w : Walk) (pkg : String) (defs : Defs) (name : String) (st : St) : 
   | none => .err "model: reference to a schema that is not in the definition table"
   | some target => obind (declare w pkg name target st) fun st' => .ok (.ref pkg name m0, st')
 
+/-- `schema.AdditionalProperties == nil` -/
+def addlIsNone : JAddl → Bool | .none => true | _ => false
+
 /-- `walkDefinition` -/
 def walkDefinition (pkg : String) (defs : Defs) : Nat → JS → St → Outcome (Ty × St)
   | 0, _, _ => .err "fuel"
@@ -365,7 +368,7 @@ def walkDefinition (pkg : String) (defs : Defs) : Nat → JS → St → Outcome 
     | none =>
     match a.types with
     | [] =>
-      if a.hasProps || a.hasPatternProps || !(match addl with | .none => true | _ => false) then
+      if a.hasProps || a.hasPatternProps || !addlIsNone addl then
         walkObject w a props addl st
       else
         (match a.const with
